@@ -10,7 +10,9 @@ import (
 	"runtime"
 	"runtime/debug"
 	"sort"
+	"strconv"
 	"strings"
+	"time"
 
 	"golang.org/x/tools/go/packages"
 	"golang.org/x/tools/go/ssa"
@@ -18,22 +20,23 @@ import (
 )
 
 type Config struct {
-	InitPkgs    []string // package path prefixes whose init() is executed
-	TrackPkgs   []string // package path prefixes whose entered functions are reported
-	MaxSteps    int64
-	MaxSymBr    int
-	FloatFP     bool
-	TimeoutMs   int
-	SolverBin   string
-	Trace       bool
-	MapOrder    int
-	MaxPaths    int
-	StopOnFirst bool
-	MergeFuncs  map[string]bool // pure functions summarised by ITE-merging their paths
-	ExactReal   bool            // concrete float divisions that are inexact are kept as exact rationals
-	UFStubs     map[string]bool // float-valued functions replaced by an uninterpreted function of their scalar arguments
-	LatticeFirst bool           // NRA obligations: try the dyadic-lattice query before the unrestricted one
-	FeasMs      int             // shorter solver timeout for branch-feasibility queries (unknown keeps both sides)
+	InitPkgs     []string // package path prefixes whose init() is executed
+	TrackPkgs    []string // package path prefixes whose entered functions are reported
+	MaxSteps     int64
+	PathSeconds  int // wall-clock limit per path (0: 300)
+	MaxSymBr     int
+	FloatFP      bool
+	TimeoutMs    int
+	SolverBin    string
+	Trace        bool
+	MapOrder     int
+	MaxPaths     int
+	StopOnFirst  bool
+	MergeFuncs   map[string]bool // pure functions summarised by ITE-merging their paths
+	ExactReal    bool            // concrete float divisions that are inexact are kept as exact rationals
+	UFStubs      map[string]bool // float-valued functions replaced by an uninterpreted function of their scalar arguments
+	LatticeFirst bool            // NRA obligations: try the dyadic-lattice query before the unrestricted one
+	FeasMs       int             // shorter solver timeout for branch-feasibility queries (unknown keeps both sides)
 }
 
 func (c *Config) initAllowed(path string) bool {
@@ -285,6 +288,14 @@ func (w *Worker) runPath(fn *ssa.Function, args []interface{}, prefix []int64, o
 	}
 	pc := &pathCtx{solver: w.Solver, prefix: prefix, stats: out.Stats, maxSteps: maxSteps, names: map[string]int{},
 		floatFP: w.Cfg.FloatFP, mapOrder: w.Cfg.MapOrder, feasMs: w.Cfg.FeasMs, latticeFirst: w.Cfg.LatticeFirst}
+	ps := w.Cfg.PathSeconds
+	if ps == 0 {
+		ps = 300
+		if e, err := strconv.Atoi(os.Getenv("GOSYM_PATH_SECONDS")); err == nil && e > 0 {
+			ps = e
+		}
+	}
+	pc.deadline = time.Now().Add(time.Duration(ps) * time.Second)
 	i := w.newInterp(pc)
 	w.Solver.Push()
 	defer func() {
@@ -298,7 +309,7 @@ func (w *Worker) runPath(fn *ssa.Function, args []interface{}, prefix []int64, o
 			}
 			switch p := r.(type) {
 			case pathEnd:
-				if p.reason == "step-limit" || p.reason == "symbranch-limit" || p.reason == "call-depth" {
+				if p.reason == "step-limit" || p.reason == "symbranch-limit" || p.reason == "call-depth" || p.reason == "path-time-limit" {
 					out.Stats.UnwindHits++
 					out.Inconclusive = append(out.Inconclusive, "unwinding assertion failed: "+p.reason)
 				}
